@@ -24,6 +24,7 @@ import (
 	"os"
 	"path"
 	"path/filepath"
+	"sort"
 	"strings"
 
 	"github.com/pkg/errors"
@@ -134,8 +135,16 @@ func (cfg *Configuration) renderResources(ch *chart.Chart, values chartutil.Valu
 	// text file. We have to spin through this map because the file contains path information, so we
 	// look for terminating NOTES.txt. We also remove it from the files so that we don't have to skip
 	// it in the sortHooks.
+	// The notes files are visited in the order of their paths, so that the text does not depend on the
+	// iteration order of the map when several of them are kept (subNotes).
 	var notesBuffer bytes.Buffer
-	for k, v := range files {
+	notesKeys := make([]string, 0, len(files))
+	for k := range files {
+		notesKeys = append(notesKeys, k)
+	}
+	sort.Strings(notesKeys)
+	for _, k := range notesKeys {
+		v := files[k]
 		if strings.HasSuffix(k, notesFileSuffix) {
 			if subNotes || (k == path.Join(ch.Name(), "templates", notesFileSuffix)) {
 				// If buffer contains data, add newline before adding more
